@@ -16,7 +16,8 @@ RULE = ('case = (boolean table with named objects/attributes, algorithm in {defa
 EXHAUSTIVE = {'quick': 'all tables n,m<=3 (682) x {Lindig, CbO}, every concept',
               'thorough': 'all tables with n*m<=12, n,m<=4 (9418) x {Lindig, CbO}, every concept'}
 EXPLANATION = ('the Lean checker Spec.holdsC04 judges the implementation\'s own labels (index and name versions) and ancestor sets: '
-               'every object/attribute labels exactly one node and table[g][a] <-> node(g) <= node(a); the labels are pinned '
+               'every object/attribute labels exactly one node and table[g][a] <-> node(g) <= node(a) (Fca.C04.holdsC04_iff proves the '
+               'checker true exactly in that case; model_holdsC04 that it accepts the model); the labels are pinned '
                'uniquely, so they are also compared with the model (Fca.C04.* prove the model\'s labels have these properties '
                'for every concept list enumerating allConcepts t)')
 ASSUMPTIONS = ['the concept list is a duplicate-free enumeration of all concepts of the table (C02; re-checked on every case)',
